@@ -132,6 +132,10 @@ JOBS.append(dict(name='c15_sse_match_copy_bounded_q', entry='h_sse_match_copy_bo
                  unwindset=['carquet_sse_match_copy.%d:%d' % lb for lb in enumerate([4, 9, 4, 17, 18, 4, 5, 5, 34])] + ['memcpy.0:17'],
                  functions=['carquet_sse_match_copy'], level='bounded', bound='offset 1..20, len 0..32, all buffer contents',
                  wip=True, timeout=300))
+# quick-tier variant of the SSE match_length job: limit - p in 0..24 (every remainder class: 0..15 bytes after zero or one
+# 16-byte step), p and match in one 40-byte buffer
+JOBS.append(dict(bj('match_length', [3, 17], 'limit - p in 0..24 (p at any offset >= 16 of a 40-byte buffer ending at limit), match before p in the same buffer, all contents'),
+                 name='c15_sse_match_length_bounded_q', defines=E['defines'] + ['CQV_ML_BUF=40', 'CQV_ML_MAX=24'], unwind=20, timeout=300, backend='cadical'))
 def lemma(fn, **kw):
     d = dict(name='c15_sse_' + fn, entry='h_sse_' + fn, loop_contracts=False, unwind=66, functions=['carquet_sse_' + fn], wip=True)
     d.update(E); d['overlays'] = []; d.update(kw)
@@ -175,7 +179,7 @@ for isa, define in (('avx512', '__AVX512F__=1'), ('avx2', '__AVX2__=1')):
                  unwindset=['carquet_%s_gather_%s.%d:%d' % (isa, base, i, b) for i, b in enumerate(KUNW[isa][base])] +
                            ['h_%s_gather_%s_bounded.0:42' % (isa, t)] + GUNW,
                  unwind=45,   # net for loops a changed kernel may have beyond the listed ones
-                 bound='count 0..40, dictionary of 1..64 entries, all indices < entries, all data')
+                 bound='count 0..40, dictionary of 64 entries, all indices < 64, all data')
         JOBS.append(d)
 
 # ---- status after validation (ok on /repo AND a deliberate breakage of the function detected) -----
